@@ -502,6 +502,12 @@ def literal_stress_programs():
             q2 = lua_quote("ab " * (k // 3) + "a" * (k % 3) + it + " cd" * 10)
             yield f"x = {q}"
             yield f"do do f({q}, {q2}) end end"
+    # the same around the cut columns of the THIRD and FOURTH line of a literal without any word break (position bookkeeping carried from line to line)
+    for k in list(range(218, 246)) + list(range(336, 356, 2)):
+        for it in ["\n", "\\", "\x00", "é", "😀"]:
+            q = lua_quote("A" * k + it + "B" * 40)
+            yield f"x = {q}"
+            yield f"do do f({q}) end end"
 
 
 def comment_stress_programs():
@@ -1592,6 +1598,8 @@ def marker_statements(k: int) -> list[tuple[str, str]]:
             (m, f"while {m} do end"), (m, f"repeat until {m}"), (m, f"if {m} then elseif y then else end"), (m, f"for {m} = 1, 2 do end"),
             (m, f"for {m}, v in p do end"), (m, f"function {m}.a:b() end"), (m, f"local function {m}() end"), (m, f"goto {m}"),
             (m, f"::{m}::"), (m, f"do {m}() end"), (m, f"{m}'s'"), (m, f"{m}{{}}"), (m, f"({m})()"), (m, f"({m}).x = 1"),
+            # statements that still begin with a bracket after parsing (the parser drops the brackets of the two above)
+            (m, f"({m} or g)(1)"), (m, f"({m} .. 's'):upper()"), (m, f"({m} or t).x = 1"),
             # statements without a name of their own: only text, count and order of their comments can be checked
             (None, ";"), (None, "; ;"), (None, "do end"), (None, "do ; end")]
 
@@ -1660,7 +1668,7 @@ def run_c13(ctx: fw.Ctx) -> None:
     for text in COMMENT_TEXTS + MULTI_TEXTS:
         for m, s in marker_statements(7):
             k += 1
-            if ctx.quick and (k + k // 24) % 3:   # a third of the pairs, rotating so that every form meets every third text
+            if ctx.quick and (k + k // 27) % 3:   # a third of the pairs, rotating so that every form meets every third text
                 continue
             sp = comment_spellings(r, text)
             cases.append((f"z0 = 0\n{sp}{s}" if not s.startswith("(") else f"z0 = 0;\n{sp}{s}", [(text.strip(LUA_WS), m)]))
@@ -3389,19 +3397,33 @@ def t2_units(ctx: fw.Ctx, which: list[str], name: str = "T2:units") -> None:
         try:
             with quiet():
                 return fn(*a)
+        except TypeError as e:
+            if "positional argument" in str(e) or "keyword argument" in str(e) or "required argument" in str(e):
+                raise   # not callable with the modelled parameters: handled below
+            return e
         except Exception as e:  # noqa: BLE001
             return e
 
-    if "findlevel" in which:
+    def helper(owner, attr: str):
+        """a private helper of formatter.py, looked up tolerantly of leading underscores; None (skipped and noted) when there is none of that name"""
+        for cand in (attr, "_" + attr.lstrip("_"), attr.lstrip("_"), "__" + attr.lstrip("_"), f"_Formatter__{attr.lstrip('_')}"):
+            if hasattr(owner, cand):
+                return getattr(owner, cand)
+        st.notes[f"skipped {attr} (no such function)"] = True
+        return None
+
+    h_find, h_sep, h_ident = helper(FM.Formatter, "_find_level"), helper(FM, "sep_required"), helper(FM, "_string_ident")
+    h_comment, h_string = helper(FM.Formatter, "_format_comment"), helper(FM.Formatter, "visit_String")
+    if "findlevel" in which and h_find is not None:
         for v in _strs(["[", "]", "=", "a"], 7 if q else 9):
-            reqs.append((("munit", "findlevel", hx(v)), lambda v=v: f"ok {FM.Formatter._find_level(v)}"))
-    if "sep" in which:
+            reqs.append((("munit", "findlevel", hx(v)), lambda v=v: f"ok {h_find(v)}"))
+    if "sep" in which and h_sep is not None:
         toks = _strs(["a", "1", ".", "-", "[", "=", "~", "<", "_", "e", "/", ":", "\"", "]"], 2)[1:]
         toks += ["..", "...", "0x1", "1.", ".5", "[[", "[=[", "[[x]]", "--", "and", "not", "1e", "==", "~=", "<=", ">>", "//", "::"]
         for a in [""] + toks:
             for b in [""] + toks:
                 def f(a=a, b=b):
-                    r = call(FM.sep_required, a, b)
+                    r = call(h_sep, a, b)
                     return f"err py {type(r).__name__} formatter.sep_required" if isinstance(r, Exception) else f"ok {str(bool(r)).lower()}"
                 reqs.append((("munit", "sep", hx(a), hx(b)), f))
     if "wrap" in which:
@@ -3428,15 +3450,18 @@ def t2_units(ctx: fw.Ctx, which: list[str], name: str = "T2:units") -> None:
             sty = r.choice(stys)
             ind = r.choice([0, 0, 1, 2, 5, 40])
 
+            if h_ident is None:
+                continue
+
             def f(v=v, ind=ind, sty=sty):
-                res = call(FM._string_ident, v, ind, sty)
+                res = call(h_ident, v, ind, sty)
                 return f"err py {type(res).__name__} formatter._string_ident" if isinstance(res, Exception) else "ok " + show_pieces(res)
             reqs.append((("munit", "stringident", hx(v), str(ind), *style_args(sty)), f))
-    if "comment" in which:
+    if "comment" in which and h_comment is not None:
         stys = [FormattingStyle, MinifiedStyle, mkstyle(dict(COMMENT_SEP="")), mkstyle(dict(COMMENT_SEP="  "))]
         for v in _strs(["[", "]", "=", "a", "\n", " ", "-"], 4 if q else 6):
             for sty in stys:
-                reqs.append((("munit", "comment", hx(v), *style_args(sty)), lambda v=v, sty=sty: "ok " + show_pieces(FM.Formatter(sty)._format_comment(v))))
+                reqs.append((("munit", "comment", hx(v), *style_args(sty)), lambda v=v, sty=sty: "ok " + show_pieces(h_comment(FM.Formatter(sty), v))))
     if "string" in which:
         stys = [FormattingStyle, MinifiedStyle, mkstyle(dict(USE_SINGLE_QUOTE=True, NEWLINE_LIMIT=0)), mkstyle(dict(NEWLINE_LIMIT=2))]
         vals = _strs(["a", " ", "\n", "\"", "'", "\\", "]", "[", "=", "é", "\x00", "\t"], 3 if q else 4)
@@ -3446,13 +3471,31 @@ def t2_units(ctx: fw.Ctx, which: list[str], name: str = "T2:units") -> None:
                 reqs.append((("munit", "string", hx(v), *style_args(sty)),
                              lambda v=v, sty=sty: "ok " + show_pieces(FM.Formatter(sty).visit_String(A.String(T(TokenType.STRING, v), v)))))
     answers = drive([r_ for r_, _ in reqs])
+    # A private helper that cannot be CALLED the way the model's counterpart is (other parameters after a refactoring) is not a difference in
+    # behaviour: that unit is skipped and noted, and the whole-format correspondence and the oracles have to carry the property.  A helper that
+    # raises on SOME inputs only is a difference.
+    mines: list[str] = []
+    calls: dict[str, int] = {}
+    uncallable: dict[str, int] = {}
     for (req, fn), ans in zip(reqs, answers):
+        calls[req[1]] = calls.get(req[1], 0) + 1
+        try:
+            mines.append(fn())
+        except TypeError as e:
+            msg = str(e)
+            if "positional argument" in msg or "keyword argument" in msg or "required argument" in msg:
+                uncallable[req[1]] = uncallable.get(req[1], 0) + 1
+            mines.append(f"err py TypeError: {e}"[:200])
+        except Exception as e:  # noqa: BLE001
+            mines.append(f"err py {type(e).__name__}: {e}"[:200])
+    skipped = {op for op, n in uncallable.items() if n == calls[op]}
+    for op in skipped:
+        st.notes[f"skipped {op} (the helper no longer takes the modelled parameters)"] = True
+    for (req, fn), ans, mine in zip(reqs, answers, mines):
+        if req[1] in skipped:
+            continue
         st.record({"kind": "t2-unit", "op": req[1]}, key=repr(req))
         st.notes[req[1]] = st.notes.get(req[1], 0) + 1
-        try:
-            mine = fn()
-        except Exception as e:  # noqa: BLE001  (a helper whose signature or behaviour changed: that is a difference, not a crash of the check)
-            mine = f"err py {type(e).__name__}: {e}"[:200]
         if ans != mine:
             ctx.tie_broken(name, {"unit": req[1], "args": [unhx(x) if i < 1 or req[1] == "sep" else x for i, x in enumerate(req[2:])][:3],
                                   "model": ans[:500], "tumfl": mine[:500]})
